@@ -46,6 +46,10 @@ type ProviderCache struct {
 	needsRefresh atomic.Bool
 	refreshIn    time.Duration
 	refreshTimer *time.Timer
+
+	// refreshes counts the refreshes that consulted all sources without being
+	// canceled.
+	refreshes atomic.Uint64
 }
 
 // cacheInfo contains writable cache info.
@@ -250,17 +254,25 @@ func (pc *ProviderCache) Len() int {
 
 // Refresh initiates an immediate cache refresh.
 func (pc *ProviderCache) Refresh(ctx context.Context) error {
+	refreshes := pc.refreshes.Load()
 	verifhook.Point("pcache.lock", "refresh")
 	select {
 	case pc.writeLock <- struct{}{}:
 	default:
-		// Refresh already in progress, wait for it to finish.
+		// An update is in progress, wait for it to finish.
 		select {
 		case pc.writeLock <- struct{}{}:
-			<-pc.writeLock
 		case <-ctx.Done():
+			return ctx.Err()
 		}
-		return ctx.Err()
+		if pc.refreshes.Load() != refreshes {
+			// It was a refresh and it completed, there is no need for
+			// another one.
+			<-pc.writeLock
+			return nil
+		}
+		// It was the fetch of a missing provider, or a refresh that got
+		// canceled: the cache has not been refreshed, do it now.
 	}
 	defer func() {
 		<-pc.writeLock
@@ -361,6 +373,7 @@ func (pc *ProviderCache) Refresh(ctx context.Context) error {
 		if canceled {
 			return ctx.Err()
 		}
+		pc.refreshes.Add(1)
 		return nil
 	}
 
@@ -380,6 +393,7 @@ func (pc *ProviderCache) Refresh(ctx context.Context) error {
 	if canceled {
 		return ctx.Err()
 	}
+	pc.refreshes.Add(1)
 	return nil
 }
 
